@@ -158,7 +158,7 @@ class IterativeTighteningSearch(Bounded, Generic[B]):
                 and self.best_match.bounds().dominates(node.item.bounds()):
             self._delete_node(node)
             return
-        elif self.initial_bounds.dominates(node.item.bounds()):
+        elif self.initial_bounds.upper_bound < node.item.bounds().lower_bound:
             self._delete_node(node)
             return
         bounds: Range = node.item.bounds()
